@@ -72,6 +72,13 @@ Fixpoint exec_plan (fs : list (bytes * bytes)) (pl : list (bytes * bytes)) : lis
                    (fs2, if wrote then p :: ws else ws)
   end.
 
+(* decidable side conditions of C12's second-run theorem: planned paths pairwise distinct, planned
+   contents valid UTF-8 (evaluated on every explored scenario by the extracted driver) *)
+Fixpoint nodupb (l : list bytes) : bool :=
+  match l with [] => true | x :: r => negb (existsb (beqb x) r) && nodupb r end.
+Definition plan_ok (pl : list (bytes * bytes)) : bool :=
+  nodupb (map fst pl) && forallb (fun pc => utf8_valid (snd pc)) pl.
+
 Definition rerun (p : bytes) : bytes := b "cargo:rerun-if-changed=" ++ p.
 (* println!("cargo:rerun-if-changed={}", p) followed by reading / listing p *)
 Definition announce_read (w : world) (p : bytes) : world := note_read (say w (rerun p)) p.
